@@ -112,7 +112,7 @@ def _reducer_runs(chk, tier, select, faults):
     # (workers, max solutions per worker, spurious time-outs allowed per run)
     grid = [(1, 2, 2), (2, 2, 1), (2, 1, 2)] if tier == "quick" else [(1, 3, 2), (2, 3, 1), (2, 2, 2), (3, 1, 2), (3, 2, 0)]
     if faults and tier == "quick":
-        grid = [(1, 1, 1), (2, 1, 1)]
+        grid = [(1, 1, 1), (2, 1, 2)]
     elif faults:
         grid = [(1, 2, 1), (2, 2, 1), (3, 1, 1)]
     for mode in ("solve", "minimize", "maximize"):
@@ -428,6 +428,8 @@ def c13(tier, seed, only):
         f = h_lemma.TRANSLATION_INVARIANT.get(cfg["alg"])
         if f is None or cfg["n"] > (3 if tier == "quick" else 4) or (cfg["alg"] == "gcc" and (tier == "quick" and cfg["n"] >= 3)):
             continue
+        if cfg["alg"] == "alldifferent" and cfg["n"] > 3:
+            continue  # two runs of alldifferent n=4 square ~10^6 paths: outside the thorough budget (measured)
         if only and cfg["alg"] not in only:
             continue
         if cfg["alg"] == "gcc":
@@ -580,16 +582,20 @@ def c20(tier, seed, only):
 
     chk = Check("C20", tier, seed, level="other")
     rep = h_models.run_all(tier, only)
-    chk.res.stats["paths"] = len(rep.items)
-    chk.res.stats["prop_queries"] = rep.queries
-    chk.res.stats["checks"] = rep.queries
-    chk.res.stats["solver_s"] = rep.solver_s
+    chk.res.stats["paths"] += len(rep.items)
+    chk.res.stats["prop_queries"] += rep.queries
+    chk.res.stats["checks"] += rep.queries
+    chk.res.stats["solver_s"] += rep.solver_s
     for v in rep.violations:
         # replay = the real solver on the instances of that model (counts / optima derived from the definition)
         v["instances"] = [i for i in rep.instances if i["model"] == v["model"] or i["model"].startswith(v["model"])]
     chk.violations.extend(rep.violations)
     chk.inconclusive.extend(rep.inconclusive)
-    chk.require("C20", len(rep.items) > 20, "too few model queries")
+    if not only or "knapsack" in only:
+        for n_ in (2, 3) if tier == "quick" else (2, 3, 4):
+            r_ = chk.explore("model_knapsack", dict(n=n_), f"knapsack/symbolic volumes and capacity/n={n_}")
+            chk.require("knapsack", r_.acc.counts.get("constructor-path", 0) > 0, "constructor never returned")
+    chk.require("C20", len(rep.items) > 20 or only, "too few model queries")
     chk.res.acc.samples.extend(rep.items[:6])
     chk.extra_cov.update(
         model_queries=rep.items,
